@@ -31,9 +31,9 @@ from lib import gen_net as gn
 from props import c01 as c01p
 
 ID = "C08"
-PROPS_FILES = ["Gama/Props/C08.lean"]
-LEAN_TARGETS = ["Gama.Props.C08", "Gama.Props.C01.Spec"]
-DRIVERS = ["drv_ls"]
+PROPS_FILES = ["Gama/Props/C08.lean", "Gama/Props/C08Solvers.lean"]
+LEAN_TARGETS = ["Gama.Props.C08", "Gama.Props.C08Solvers", "Gama.Props.C01.Spec"]
+DRIVERS = ["drv_ls", "drv_minx"]
 RULE = ("ls: free problems (defect>0; dense with planted dependent columns, levelling graphs incl. disconnected; unit / "
         "diagonal / banded SPD covariance) x up to 4 regularisation subsets that resolve the defect (exact rational "
         "decision) x {env,chol,gso,svd} x {solver,adj}; a case is distinct by problem text + subset + algorithm + entry and "
@@ -431,13 +431,41 @@ def net_compare(net, fam, runs, converged=False):
     return bad, st
 
 
+def plant_outlier(rng, net):
+    """a gross error (7 m / 3 gon; tol-abs is 1 m) in one distance / height difference / angle — preferably the FIRST
+    observation of a cluster, which is the first to refer to its points: gama-local removes it
+    (remove_huge_abs_terms), project_equations() runs a second time and numbers the unknowns differently"""
+    cands = [(ci, ii) for ci, c in enumerate(net["obs"]) for ii, it in enumerate(c["items"])
+             if c["kind"] == "hdiffs" or (c["kind"] == "obs" and it["t"] in OUTLIER_STEP)]
+    deg = {}
+
+    def ends(c, it):
+        return [e for e in (c.get("from"), it.get("from"), it.get("to"), it.get("bs"), it.get("fs")) if e is not None]
+
+    for c in net["obs"]:
+        for it in c["items"]:
+            for e in set(ends(c, it)):
+                deg[e] = deg.get(e, 0) + 1
+    # every end point keeps at least two other observations (a point that loses its only observation drops out of
+    # the adjustment and is printed with its approximate coordinates: not comparable between two datum choices)
+    cands = [(ci, ii) for ci, ii in cands if all(deg[e] >= 3 for e in ends(net["obs"][ci], net["obs"][ci]["items"][ii]))]
+    if not cands:
+        return None
+    first = [x for x in cands if x[1] == 0]
+    ci, ii = rng.choice(first) if first and rng.random() < 0.7 else rng.choice(cands)
+    it = net["obs"][ci]["items"][ii]
+    it["val"] += 7.0 if net["obs"][ci]["kind"] == "hdiffs" else OUTLIER_STEP[it["t"]]
+    return (ci, ii)
+
+
 def make_net_cases(ctx, n):
     out = []
     for k in range(n):
         fam = FAMILIES[k % len(FAMILIES)]
         net, ids, kmin, defect = make_net(ctx.rng, fam)
+        outlier = plant_outlier(ctx.rng, net) if k % 3 == 1 else None
         c1, c2 = two_constraint_sets(ctx.rng, ids, kmin)
-        out.append({"fam": fam, "net": net, "sets": [c1, c2], "defect": defect})
+        out.append({"fam": fam, "net": net, "sets": [c1, c2], "defect": defect, "outlier": outlier})
     return out
 
 
@@ -488,6 +516,12 @@ def net_stream(ctx, corr, n, gama_dir=None):
                 continue
             if it == 0:
                 checked += 1
+                if c.get("outlier"):
+                    nobs = sum(len(o["items"]) for o in c["net"]["obs"])
+                    if all(len(r["obs"]) == nobs - 1 for _, _, _, r in runs):
+                        corr.count("net_outlier_removed_networks")
+                    else:
+                        corr.count("net_outlier_not_removed")
             bad, st = net_compare(c["net"], c["fam"], [(l, cons, r) for l, _, cons, r in runs], converged=(it is None))
             for k, v in st.items():
                 if k == "iterated":
@@ -504,6 +538,372 @@ def net_stream(ctx, corr, n, gama_dir=None):
     return checked, len(cases)
 
 
+# =========================================================================== construction of min_x_ (Model/MinX.lean)
+
+MINX_FAMS = ["lev", "2d-dd", "2d-dist", "2d-ang", "3d", "2d-iso", "3d-vec", "2d-dd"]
+OUTLIER_STEP = {"distance": 7.0, "s-distance": 7.0, "angle": 3.0, "z-angle": 3.0}
+KIND_NAME = {"direction": "Direction", "distance": "Distance", "angle": "Angle", "s-distance": "S_Distance",
+             "z-angle": "Z_Angle", "azimuth": "Azimuth"}
+
+
+def minx_harness(ctx):
+    for attempt in range(3):
+        try:
+            d = ctx.build_gama(sanitize=True)
+            break
+        except BuildError as e:
+            if attempt == 2 or "No such file or directory" not in e.log:
+                raise
+            time.sleep(3 + 5 * attempt)
+    objs = sorted(str(p) for p in (d / "CMakeFiles" / "libgama.dir").rglob("*.o"))
+    if not objs:
+        raise BuildError("c08_minx", "no libgama objects under " + str(d))
+    return ctx.build_cpp("c08_minx", [ctx.verif / "harness" / "c08_minx.cpp"], libs=objs + ["-lexpat"],
+                         includes=[ctx.verif / "harness"])
+
+
+def make_minx_net(rng, fam):
+    """a network with mixed statuses (fixed / adjusted / constrained) and, possibly, one planted gross error;
+    returns (net, planted) with planted = (kind name, from id, to id, fs id or None) or None"""
+    if fam == "lev":
+        net = gn.levelling_network(rng, npts=rng.randint(3, 7), extra=rng.randint(1, 4), noise=0.5, free=True)
+    elif fam in ("3d", "3d-vec"):
+        kinds = ("direction", "s-distance", "z-angle") + (("vector", "dh") if fam == "3d-vec" else ())
+        net = gn.make_network(rng, npts=rng.randint(3, 5), dim=3, kinds=kinds, density=0.7, noise=0.5, free=True)
+    else:
+        kinds = {"2d-dd": ("direction", "distance"), "2d-dist": ("distance",), "2d-ang": ("angle", "distance"),
+                 "2d-iso": ("direction", "distance")}[fam]
+        net = gn.make_network(rng, npts=rng.randint(3, 6), dim=2, kinds=kinds, density=0.6, noise=0.5, free=True)
+    for pid, p in net["points"].items():
+        p["status"] = rng.choice(["fix", "adj", "con", "con", "con"])
+    if fam == "2d-iso":       # a point no observation refers to: singular_coords removes it, project_equations recurses
+        net["points"]["ZZ" + str(rng.randint(1, 9))] = {"x": 5000.0, "y": 5000.0, "status": rng.choice(["adj", "con"]), "approx": True}
+    planted = None
+    cands = []
+    for ci, c in enumerate(net["obs"]):
+        for ii, it in enumerate(c["items"]):
+            if c["kind"] == "obs" and it["t"] in OUTLIER_STEP:
+                cands.append((ci, ii))
+            elif c["kind"] == "hdiffs":
+                cands.append((ci, ii))
+    if cands and rng.random() < 0.8:
+        first = [x for x in cands if x[1] == 0]
+        ci, ii = rng.choice(first) if first and rng.random() < 0.6 else rng.choice(cands)
+        c, it = net["obs"][ci], net["obs"][ci]["items"][ii]
+        if c["kind"] == "hdiffs":
+            it["val"] += 7.0
+            planted = ("H_Diff", it["from"], it["to"], None)
+        else:
+            it["val"] += OUTLIER_STEP[it["t"]]
+            planted = (KIND_NAME[it["t"]], c["from"], it.get("to", it.get("bs")), it.get("fs"))
+    return net, planted
+
+
+def parse_dump(lines):
+    pts, obs, head = [], [], []
+    for l in lines:
+        t = l.split()
+        if t and t[0] == "pt":
+            pts.append((t[1], t[2]))
+        elif t and t[0] == "ob":
+            obs.append((t[1], t[2], int(t[3]), int(t[4]), int(t[5]), int(t[6])))
+    return pts, obs
+
+
+XY_KINDS = ("Direction", "Distance", "Angle", "S_Distance", "Azimuth", "Xdiff", "Ydiff", "X", "Y")
+
+
+def minx_sim(st, obs, flags):
+    """generator-side prediction of one project_equations() call (structure only): returns (statuses, safe);
+    safe = no adjusted xy point is left with observations to exactly one other point (for such a point the
+    NUMERIC half of singular_coords, which the model takes as a parameter, may fire)"""
+    st = [list(x) for x in st]
+
+    def act(k):
+        a, kd, sp, pf, pt, pfs = obs[k]
+        if not flags[k]:
+            return False
+        ends = [pf] if kd in ("X", "Y", "Z") else [pf, pt] + ([pfs] if kd == "Angle" else [])
+        if kd in ("H_Diff", "Zdiff", "Z", "Z_Angle"):
+            return all(st[e][1] != "u" for e in ends)
+        if kd == "S_Distance":
+            return all(st[e][0] != "u" and st[e][1] != "u" for e in ends)
+        return all(st[e][0] != "u" for e in ends)
+
+    for _ in range(len(st) + 1):
+        on = [k for k in range(len(obs)) if act(k)]
+        for sp in set(obs[k][2] for k in on if obs[k][1] == "Direction"):
+            ds = [k for k in on if obs[k][1] == "Direction" and obs[k][2] == sp]
+            if len(set(obs[k][4] for k in ds)) < 2:
+                on = [k for k in on if k not in ds]
+        nb = {p: set() for p in range(len(st))}
+        for k in on:
+            a, kd, sp, pf, pt, pfs = obs[k]
+            if kd in XY_KINDS or kd == "Z_Angle":
+                ends = [pf] if kd in ("X", "Y") else [pf, pt] + ([pfs] if kd == "Angle" else [])
+                for e in ends:
+                    nb[e] |= set(x for x in ends if x != e) or {-1}
+        removed = False
+        for p in range(len(st)):
+            if st[p][0] in ("a", "c"):
+                if len(nb[p]) == 1 or any(obs[k][1] in ("X", "Y", "Xdiff", "Ydiff") for k in on if p in obs[k][3:5]):
+                    return st, False
+                if not nb[p]:
+                    st[p][0] = "u"
+                    removed = True
+        if not removed:
+            return st, True
+    return st, False
+
+
+def minx_script(rng, pts, obs, planted):
+    """ops after `load`; every event is followed by `pass`; events that could make the numeric test of
+    singular_coords fire (minx_sim) are not generated"""
+    ops = ["dump", "pass"]
+    pos = {pid: k for k, (pid, _) in enumerate(pts)}
+    st = [list(s2) for _, s2 in pts]
+    flags = [a == "1" for a, *_ in obs]
+    st, safe = minx_sim(st, obs, flags)
+    if not safe:
+        return ops
+
+    def attempt(new_st, new_flags, lines):
+        nonlocal st, flags, ops
+        st2, ok = minx_sim(new_st, obs, new_flags)
+        if ok:
+            st, flags = st2, new_flags
+            ops += lines + ["pass"]
+        return ok
+
+    if planted:
+        kind, f, t, fs = planted
+        match = [k for k, (a, kd, sp, pf, pt, pfs) in enumerate(obs)
+                 if kd == kind and pf == pos.get(f) and pt == pos.get(t) and (fs is None or pfs == pos.get(fs))]
+        if len(match) == 1:                  # (a repeated observation cannot be told apart in the dump: no outlier op)
+            nf = list(flags)
+            nf[match[0]] = False
+            if not attempt(st, nf, [f"outlier {match[0]}"]):
+                return ops
+    for _ in range(rng.randint(1, 4)):
+        live = [k for k in range(len(obs)) if flags[k]]
+        r = rng.random()
+        if r < 0.4 and live:
+            k = rng.choice(live[:3] if rng.random() < 0.5 else live)
+            nf = list(flags)
+            nf[k] = False
+            attempt(st, nf, [f"rm_obs {k}"])
+        elif r < 0.6 and live:                  # every observation of one point: the point loses its indexes
+            p = rng.randrange(len(pts))
+            ks = [k for k in live if p in (obs[k][3], obs[k][4]) or (obs[k][1] == "Angle" and obs[k][5] == p)]
+            nf = list(flags)
+            for k in ks:
+                nf[k] = False
+            attempt(st, nf, [f"rm_obs {k}" for k in ks])
+        elif r < 0.85:
+            p = rng.randrange(len(pts))
+            g = "z" if st[p][0] == "u" or rng.random() < 0.2 else "xy"
+            ns = [list(x) for x in st]
+            ns[p][0 if g == "xy" else 1] = "u"
+            attempt(ns, flags, [f"rm_pt {p} {g}"])
+        else:
+            ops += ["relin", "pass"]
+    return ops
+
+
+def minx_pass_oracle(out):
+    """on the implementation's own output of one `pass`: min_x_ must be the indexes the numbering of THIS pass
+    gives to the constrained coordinates (y, x per point, then z), min_n_ its length, entries distinct in 1..n"""
+    head = out[0].split()
+    if head[0] != "out":
+        return None, None
+    n, minn = int(head[1]), int(head[2])
+    lst = [int(v) for v in head[4:]]
+    idx, st = {}, []
+    for l in out[1:]:
+        t = l.split()
+        if t[0] == "idx":
+            idx[int(t[1])] = (int(t[2]), int(t[3]), int(t[4]))
+        elif t[0] == "st":
+            st = t[1:]
+    want = []
+    for p, s2 in enumerate(st):
+        ix, iy, iz = idx.get(p, (0, 0, 0))
+        if s2[0] == "c" and ix:
+            want += [iy, ix]
+        if s2[1] == "c" and iz:
+            want += [iz]
+    bad = []
+    if lst != want:
+        bad.append(f"min_x_ = {lst} but the constrained coordinates have indexes {want} in the numbering of this pass")
+    if minn != len(lst):
+        bad.append(f"min_n_ = {minn} but the list has {len(lst)} entries")
+    if any(not (1 <= i <= n) for i in lst) or len(set(lst)) != len(lst):
+        bad.append(f"min_x_ = {lst} is not a list of distinct indexes in 1..{n}")
+    return bad, (tuple(lst), tuple(sorted(idx.items())))
+
+
+def split_passes(ops, out):
+    """output lines of each op (harness and driver print the same number of lines per op)"""
+    res, i = [], 0
+    for op in ops:
+        if op.startswith("pass") or op == "dump":
+            j = i + 1
+            first = ("out",) if op == "pass" else ("sp",)
+            while j < len(out) and out[j].split()[0] in ("idx", "ori", "st", "rm", "act", "pt", "ob") and not (
+                    op == "dump" and out[j].split()[0] in ("idx", "ori", "st", "rm", "act")):
+                j += 1
+            res.append(out[i:j])
+            i = j
+        else:
+            res.append(out[i:i + 1])
+            i += 1
+    return res
+
+
+def minx_stream(ctx, corr, n):
+    exe = minx_harness(ctx)
+    nets = []
+    with tempfile.TemporaryDirectory(prefix="c08-minx-") as tmp:
+        for k in range(n):
+            fam = MINX_FAMS[k % len(MINX_FAMS)]
+            net, planted = make_minx_net(ctx.rng, fam)
+            path = os.path.join(tmp, f"m{k}.gkf")
+            with open(path, "w") as f:
+                f.write(gn.to_gkf(net, description=f"C08 minx {fam}"))
+            nets.append((fam, net, planted, path))
+        corpus = sorted((ctx.verif / "corpus" / "C08").glob("minx-*.gkf")) if (ctx.verif / "corpus" / "C08").exists() else []
+        for cp in corpus:
+            nets.append(("corpus", None, None, str(cp)))
+        dumps, crashes0 = run_cases(exe, [[f"load {path}", "dump"] for _, _, _, path in nets])
+        cases = []
+        for (fam, net, planted, path), d in zip(nets, dumps):
+            pts, obs = parse_dump(d)
+            ops = [f"load {path}"] + minx_script(ctx.rng, pts, obs, planted)
+            desc = [l for l in d if l.split()[0] in ("sp", "pt", "ob")]
+            cases.append((desc, ops))
+        impl, crashes = run_cases(exe, [desc + ops for desc, ops in cases])
+        model, _ = run_cases(ctx.driver("drv_minx"), [desc + ops for desc, ops in cases])
+        renumbered = 0
+        for i, ((fam, net, planted, path), (desc, ops)) in enumerate(zip(nets, cases)):
+            gkf = open(path).read()
+            nontrivial = any(l.split()[2][0] == "c" or l.split()[2][1] == "c" for l in desc if l.startswith("pt "))
+            corr.case(key=("minx " + sha(gkf) + " ".join(ops[1:])) if nontrivial else None,
+                      sample={"family": fam, "ops": ops[1:], "impl": impl[i][-8:]} if i in (1, 5) else None)
+            corr.count("minx_family_" + fam)
+            payload = {"stream": "minx", "family": fam, "gkf": gkf, "desc": desc, "ops": ops[1:]}
+            if i in crashes:
+                corr.fail("LocalNetwork crashed / sanitizer report", payload, "LocalNetwork::project_equations", crashes[i][1])
+                continue
+            if impl[i] != model[i]:
+                corr.disagree("minx", desc + ops, impl[i], model[i], "LocalNetwork::project_equations")
+            per = split_passes(ops, impl[i])
+            prev = None
+            for op, out in zip(ops, per):
+                if op.startswith("outlier") and out and not out[0].startswith("ok"):
+                    corr.count("minx_outlier_not_as_planted")
+                if op != "pass" or not out:
+                    continue
+                corr.count("minx_passes")
+                bad, sig = minx_pass_oracle(out)
+                if bad is None:
+                    corr.count("minx_pass_threw")
+                    continue
+                if bad:
+                    corr.fail("; ".join(bad), payload, "LocalNetwork::project_equations (min_x_)", " | ".join(out[:12]))
+                if prev is not None and sig[0] and len(prev[0]) == len(sig[0]) and prev[0] != sig[0]:
+                    renumbered += 1
+                if any(l.startswith("rm ") and len(l.split()) > 1 for l in out):
+                    corr.count("minx_singular_recursion")
+                prev = sig
+        corr.count("minx_renumbered_same_length", renumbered)
+    return len(cases), renumbered
+
+
+# =========================================================================== SVD::min_subset_x, defect 2..4
+
+def gen_defect_problem(rng, d):
+    """dense problem with exactly d planted dependent columns (defect d), unit covariance"""
+    nind = rng.randint(1, 3)
+    n = nind + d
+    m = rng.randint(n, n + 3)
+    while True:
+        B = [[F(rng.choice([-3, -2, -1, 0, 0, 1, 2, 3])) for _ in range(nind)] for _ in range(m)]
+        if g.rank(B) == nind:
+            break
+    cols = [[B[i][j] for i in range(m)] for j in range(nind)]
+    for _ in range(d):
+        coef = [F(rng.choice([-2, -1, 0, 1, 1, 2])) for _ in range(len(cols))]
+        if all(c == 0 for c in coef):
+            coef[0] = F(1)
+        cols.insert(rng.randint(0, len(cols)), [sum(c * col[i] for c, col in zip(coef, cols)) for i in range(m)])
+    rows = [[(j + 1, cols[j][i]) for j in range(n) if cols[j][i] != 0] for i in range(m)]
+    p = {"m": m, "n": n, "rows": rows, "family": f"defect{d}", "cov": g.gen_cov(rng, m, False),
+         "rhs": [F(rng.randint(-8, 8), rng.choice([1, 2, 4])) for _ in range(m)]}
+    p["kernel"] = g.kernel(g.dense(p), n)
+    p["defect"] = len(p["kernel"])
+    p["unit_cov"] = True
+    return p
+
+
+def svdsub_stream(ctx, corr, nprob):
+    """the svd solver with regularisation subsets on problems of defect 2..4: proper subsets of size exactly =
+    defect (resolving: must be ACCEPTED with x_S orthogonal to the exact kernel; not resolving: refused), of size
+    defect - 1 (refused by the count) and larger ones; model (drv_ls) <-> implementation on every line"""
+    exe = harness(ctx)
+    cases, meta = [], []
+    for k in range(nprob):
+        d = 2 + k % 3
+        p = gen_defect_problem(ctx.rng, d)
+        if p["defect"] != d:
+            continue
+        n = p["n"]
+        subs, seen = [], set()
+        for size, cnt in ((d, 5), (d - 1, 1), (d + 1, 2), (min(n, d + 2), 1)):
+            for _ in range(cnt):
+                S = tuple(sorted(ctx.rng.sample(range(1, n + 1), min(n, size))))
+                if S not in seen:
+                    seen.add(S)
+                    subs.append(list(S))
+        for S in subs:
+            cases.append(g.problem_lines(p, S) + ["new svd solver", "x", "r", "rtr", "defect"])
+            meta.append((p, S, g.resolves(p, S)))
+    impl, crashes = run_cases(exe, cases)
+    model = run_cases(ctx.driver("drv_ls"), cases)[0]
+    for i, (c, (p, S, res)) in enumerate(zip(cases, meta)):
+        corr.case(key="svdsub " + " ".join(c), sample={"ops": c, "impl": impl[i]} if i in (0, 7) else None)
+        tag = ("eq" if len(S) == p["defect"] else "lt" if len(S) < p["defect"] else "gt")
+        corr.count(f"svdsub_size_{tag}_defect_{'resolving' if res else 'not_resolving'}")
+        corr.count(f"svdsub_defect_{p['defect']}")
+        payload = {"stream": "ls", "ops": c, "subset": S}
+        if i in crashes:
+            corr.fail("solver crashed / sanitizer report", payload, "svd/solver", crashes[i][1])
+            continue
+        # after a refused unknowns() the history-free model keeps refusing while the object goes on answering
+        # defect() (`decomposed` stays set; histories are C04's business): compare up to the first throw
+        cut = next((k + 1 for k, a in enumerate(impl[i]) if a.startswith("throw")), len(impl[i]))
+        same = len(impl[i]) == len(model[i]) and all(b == "not-modelled" or lines_equal(a, b, rtol=1e-9, atol=1e-9)
+                                                      for a, b in zip(impl[i][:cut], model[i][:cut]))
+        if not same:
+            corr.disagree("svdsub", c, impl[i], model[i], "SVD::min_subset_x")
+        xline = impl[i][2] if len(impl[i]) > 2 else ""
+        if not res:
+            if xline != "throw BadRegularization":
+                corr.fail(f"svd: subset {S} does not resolve the defect {p['defect']} but unknowns() -> {xline[:60]}",
+                          payload, "SVD::min_subset_x", " | ".join(impl[i]))
+            continue
+        ans = answer(impl[i])
+        if isinstance(ans, str):
+            corr.fail(f"svd: subset {S} (size {len(S)}, defect {p['defect']}) resolves the defect but is refused: " + ans,
+                      payload, "SVD::min_subset_x", " | ".join(impl[i]))
+            continue
+        r2 = single_oracle(p, S, ans)
+        bad, margin = r2 if isinstance(r2, tuple) else (r2, 0.0)
+        corr.maxstat("svdsub_max_orth_margin", margin)
+        if bad:
+            corr.fail("; ".join(bad[:3]), payload, "SVD::min_subset_x", " | ".join(impl[i]))
+    return len(cases)
+
+
 # =========================================================================== pipeline hooks
 
 def correspond(ctx, corr):
@@ -513,7 +913,15 @@ def correspond(ctx, corr):
     tot = corr.stats.get("ls_proper_subset", 0) + corr.stats.get("ls_all_unknowns", 0)
     if tot and corr.stats.get("ls_proper_subset", 0) < 0.4 * tot:
         corr.inconclusive.append("fewer than 40% proper regularisation subsets")
+    nsub = svdsub_stream(ctx, corr, ctx.size(24, 900))
+    if corr.stats.get("svdsub_size_eq_defect_resolving", 0) < 10 or corr.stats.get("svdsub_size_eq_defect_not_resolving", 0) < 3:
+        corr.inconclusive.append("too few svd subsets of size exactly = defect (resolving / not resolving)")
+    ncase, renumbered = minx_stream(ctx, corr, ctx.size(60, 1500))
+    if renumbered < max(5, ncase // 10):
+        corr.inconclusive.append(f"only {renumbered} passes in which the list changed while keeping its length")
     checked, total = net_stream(ctx, corr, ctx.size(36, 2000))
+    if corr.stats.get("net_outlier_removed_networks", 0) < max(3, total // 12):
+        corr.inconclusive.append("too few free networks in which an outlying observation was removed (project_equations twice)")
     if checked < 0.6 * total:
         corr.inconclusive.append(f"only {checked}/{total} generated networks had the expected datum defect")
 
